@@ -29,8 +29,10 @@ def h_outputs(ctx, case):
     nru = ctx.choice('n_runners_up', 3)
     enc = ['dense', 'csr', 'csc'][ctx.choice('encoding', 3)] \
         if case.get('encodings') else 'dense'
+    # storage type of the query matrix
+    qdt = [None, 'float32'][ctx.choice('query_stored_as_float32', 2)]
     cfg = ST.make_config(inp, work, bootstrap_iteration=iters,
-                         n_runners_up=nru, enc=enc,
+                         n_runners_up=nru, enc=enc, query_dtype=qdt,
                          n_processors=1 + ctx.choice('n_processors-1', 2),
                          **kw)
     res = ST.run(cfg)
